@@ -61,6 +61,14 @@ def main():
             for k in m:
                 if k not in ks:
                     ks.append(k)
+        # plus every function the property's workload executes (coverage/Cxx.json, written by a run of the check with
+        # VERIF_COVERAGE=1): its correspondence evidence was obtained by running exactly these functions
+        cov = os.path.join(os.path.dirname(os.path.dirname(os.path.abspath(__file__))), 'coverage', prop + '.json')
+        if os.path.exists(cov):
+            import json
+            for k in json.load(open(cov)):
+                if k in h and k not in ks and not k.endswith(SKIP):
+                    ks.append(k)
         per[prop] = ks
         used |= set(ks)
     here = os.path.dirname(os.path.dirname(os.path.abspath(__file__)))
